@@ -3,7 +3,7 @@
 
    [vnodup fs] (the names of the non-skipped fields are pairwise different) is what the macros'
    own `validate` enforces at compile time; it is the NoDup hypothesis of the property. *)
-From SV Require Import Base.Prelude Base.Bytes Model.Derive Proofs.Derive_proofs.
+From SV Require Import Base.Prelude Base.Bytes Model.Derive Model.DeriveSpec Proofs.Derive_proofs.
 From Coq Require Import Permutation String.
 Open Scope N_scope.
 
@@ -189,8 +189,10 @@ Proof. exact deser_value_ordered_am_doc. Qed.
      gen_typeck_value_ordered d db = Ok tt <-> doc_typeck_value_ordered_strict d db = true
    ("the ordered mode accepts precisely the declared order").  Proved: outside the class.
    NOTE: [doc_*_ordered_strict] is DEFINED as the longest-selection table with the class rejected, so
-   the three C16_ordered_strict_* statements are definitional corollaries of C16_ordered_am_*; they are
-   kept (and pinned) because the driver uses the strict tables, but carry no additional content. *)
+   the three C16_ordered_strict_* statements are definitional corollaries of C16_ordered_am_*.  Their
+   content comes from C16_ordered_strict_{typeck,ser}_is_documented below: the strict tables are proved
+   equivalent to the INDEPENDENT inductive relation of Model/DeriveSpec.v (one constructor per
+   documented sentence, no sub-sequence search, no class predicate). *)
 Theorem C16_ordered_strict_ser_value : forall d db, vd_snc d = false ->
   NoDup (map vf_name (nonskipped (vd_fields d))) -> ordered_am_drops d db = false ->
   outcome_of (gen_ser_value_ordered d db) = doc_ser_value_ordered_strict d db.
@@ -207,6 +209,40 @@ Theorem C16_ordered_strict_deser_value : forall d db cells, vd_snc d = false ->
   outcome_of (gen_deser_value_ordered d db cells) = doc_deser_value_ordered_strict d db cells /\
   gen_deser_value_ordered d db cells <> Err EPanic.
 Proof. exact deser_value_ordered_strict_doc. Qed.
+
+(* The documentation as an inductive relation ([ord_bind], Model/DeriveSpec.v: the next declared field
+   is the next UDT field by name; a field may be passed over only if it is allow_missing AND the UDT
+   does not contain it; what follows the last declared field is excess, tolerated unless
+   forbid_excess_udt_fields; every bound field's own type check / serializer decides).  The strict
+   tables used by the driver are exactly this relation: *)
+Theorem C16_ordered_strict_typeck_is_documented : forall d db, vd_ordered d = true -> vd_snc d = false ->
+  NoDup (map vf_name (nonskipped (vd_fields d))) ->
+  (doc_typeck_value_ordered_strict d db = true <-> doc_rel_typeck_ordered d db).
+Proof. exact typeck_ordered_strict_rel. Qed.
+
+Theorem C16_ordered_strict_ser_is_documented : forall d db cells, vd_ordered d = true -> vd_snc d = false ->
+  NoDup (map vf_name (nonskipped (vd_fields d))) ->
+  (doc_ser_value_ordered_strict d db = Accept cells <-> doc_rel_ser_ordered d db cells).
+Proof. exact ser_ordered_strict_rel. Qed.
+
+(* what the generated code accepts, with NO class premise: the documented relation, or an input of
+   the known class F24 handled the longest-selection way *)
+Theorem C16_ordered_typeck_characterised : forall d db, vd_ordered d = true -> vd_snc d = false ->
+  NoDup (map vf_name (nonskipped (vd_fields d))) ->
+  (gen_typeck_value_ordered d db = Ok tt <->
+   doc_rel_typeck_ordered d db \/ (ordered_am_drops d db = true /\ doc_typeck_value_ordered_am d db = true)).
+Proof. exact typeck_ordered_characterised. Qed.
+
+Theorem C16_ordered_ser_characterised : forall d db cells, vd_ordered d = true -> vd_snc d = false ->
+  NoDup (map vf_name (nonskipped (vd_fields d))) ->
+  (gen_ser_value_ordered d db = Ok cells <->
+   doc_rel_ser_ordered d db cells \/ (ordered_am_drops d db = true /\ doc_ser_value_ordered_am d db = Accept cells)).
+Proof. exact ser_ordered_characterised. Qed.
+
+(* the documented binding is a function of the struct and the UDT *)
+Theorem C16_ord_bind_unique : forall fs db u p rest u' p' rest',
+  ord_bind fs db u p rest -> ord_bind fs db u' p' rest' -> u = u' /\ p = p' /\ rest = rest'.
+Proof. exact ord_bind_unique. Qed.
 
 (* struct { #[allow_missing] a: i32 = -1, b: i32 = 7 } enforce_order, UDT (b int, a int): both fields
    are there, swapped; the type is accepted, only b is sent, a comes back as 0 *)
@@ -445,6 +481,24 @@ Example C16_ex_ordered_am_class :
     = [Some [0;0;0;0]; Some [98]].
 Proof. repeat split; vm_compute; reflexivity. Qed.
 
+Example C16_ex_documented_relation :
+  doc_rel_typeck_ordered ex_am [("a", DInt); ("b", DText)]%string /\
+  doc_rel_typeck_ordered ex_am [("b", DText); ("zz", DInt)]%string /\
+  ~ doc_rel_typeck_ordered ex_am [("b", DText); ("a", DInt)]%string /\
+  ~ doc_rel_typeck_ordered ex_am [("a", DText); ("b", DText)]%string /\
+  doc_rel_ser_ordered ex_am [("a", DInt); ("b", DText)]%string [Some [0;0;0;7]; Some [98]] /\
+  ~ doc_rel_ser_ordered ex_am [("b", DText); ("a", DInt)]%string [Some [98]].
+Proof.
+  assert (Hnd : NoDup (map vf_name (nonskipped (vd_fields ex_am)))) by (apply nodupb_NoDup; reflexivity).
+  repeat split.
+  - apply (C16_ordered_strict_typeck_is_documented ex_am _ eq_refl eq_refl Hnd). reflexivity.
+  - apply (C16_ordered_strict_typeck_is_documented ex_am _ eq_refl eq_refl Hnd). reflexivity.
+  - intros H. apply (C16_ordered_strict_typeck_is_documented ex_am _ eq_refl eq_refl Hnd) in H. discriminate H.
+  - intros H. apply (C16_ordered_strict_typeck_is_documented ex_am _ eq_refl eq_refl Hnd) in H. discriminate H.
+  - apply (C16_ordered_strict_ser_is_documented ex_am _ _ eq_refl eq_refl Hnd). reflexivity.
+  - intros H. apply (C16_ordered_strict_ser_is_documented ex_am _ _ eq_refl eq_refl Hnd) in H. discriminate H.
+Qed.
+
 (* skip_name_checks: positional, types only *)
 Definition ex_snc : vdesc :=
   {| vd_ordered := true; vd_forbid := true; vd_snc := true;
@@ -523,3 +577,8 @@ Print Assumptions C16_ordered_precise_refuted.
 Print Assumptions C16_roundtrip_ordered_value_precise.
 Print Assumptions C16_ser_value_by_name_nopanic.
 Print Assumptions C16_ordered_typeck_row_nopanic.
+Print Assumptions C16_ordered_strict_typeck_is_documented.
+Print Assumptions C16_ordered_strict_ser_is_documented.
+Print Assumptions C16_ordered_typeck_characterised.
+Print Assumptions C16_ordered_ser_characterised.
+Print Assumptions C16_ord_bind_unique.
